@@ -19,6 +19,9 @@ pub struct PlogJob {
     pub partitions: u32,
     /// wall cap in seconds for this job (reported as a cap if hit)
     pub wall_cap_s: u64,
+    /// start the real TCP server in every incarnation (catalogue changes then go through handlers)
+    #[serde(default)]
+    pub tcp: bool,
 }
 
 pub struct StepCtx<'a> {
@@ -57,8 +60,11 @@ pub fn run_history(
     oracle: &mut dyn Oracle,
     res: &mut JobResult,
     want_sample: bool,
+    mut digest: Option<&mut Vec<u64>>,
+    tcp: bool,
 ) -> Option<Violation> {
-    let mut w = match World::new(scratch, tpl) {
+    let tr = if tcp { crate::node::Transports::TCP } else { crate::node::Transports::NONE };
+    let mut w = match World::new_with(scratch, tpl, tr) {
         Ok(w) => w,
         Err(e) => {
             return Some(Violation {
@@ -91,9 +97,14 @@ pub fn run_history(
             }
             let mut ctx = StepCtx { hist: &hist[..=i], idx: i, canonical, res };
             let r = oracle.step(&mut w, op, &out, &mut ctx);
-            if canonical && w.node.sys.is_some() {
+            if (canonical || digest.is_some()) && w.node.sys.is_some() {
                 let k = state_key(&mut w);
-                res.state_keys.push(k);
+                if canonical {
+                    res.state_keys.push(k);
+                }
+                if let Some(d) = digest.as_deref_mut() {
+                    d.push(k);
+                }
             }
             if want_sample {
                 trace.push(json!({"op": op.short(), "out": brief(&out)}));
@@ -125,7 +136,7 @@ pub fn run_history(
             property: prop.into(),
             key: oracle.classify(&tpl.cfg, h, &m),
             message: format!("cfg[{}] history[{}] step {}: {}", tpl.cfg.label(), hist_str(h), i, m),
-            replay: json!({"kind":"plog","cfg": tpl.cfg, "history": h, "partitions": 2}),
+            replay: json!({"kind":"plog","cfg": tpl.cfg, "history": h, "partitions": 2, "tcp": tcp}),
         }
     })
 }
@@ -155,7 +166,25 @@ pub fn run_job(prop: &str, job: &PlogJob, factory: OracleFactory) -> JobResult {
         hist.extend(idx.iter().map(|&i| job.alphabet[i].clone()));
         let mut oracle = factory(&job.oracle, &job.cfg);
         let want_sample = count % 997 == 1 || (count == 0 && free == 0);
-        if let Some(v) = run_history(prop, &scratch, &tpl, &hist, Some(&job.alphabet[0]), oracle.as_mut(), &mut res, want_sample) {
+        // replay self-check: every 64th history is executed twice; the sequences of state keys
+        // (directory digest + in-memory facts after every step) must be identical
+        let selfcheck = count % 64 == 7;
+        let mut d1: Vec<u64> = Vec::new();
+        let v = run_history(prop, &scratch, &tpl, &hist, Some(&job.alphabet[0]), oracle.as_mut(), &mut res, want_sample, if selfcheck { Some(&mut d1) } else { None }, job.tcp);
+        if selfcheck {
+            let mut d2: Vec<u64> = Vec::new();
+            let mut scratch_res = JobResult::default();
+            let mut o2 = factory(&job.oracle, &job.cfg);
+            let v2 = run_history(prop, &scratch, &tpl, &hist, Some(&job.alphabet[0]), o2.as_mut(), &mut scratch_res, false, Some(&mut d2), job.tcp);
+            res.bump("replay_selfchecks");
+            if d1 != d2 || v.as_ref().map(|x| &x.key) != v2.as_ref().map(|x| &x.key) {
+                res.machinery_error = Some(format!(
+                    "replay self-check failed: history [{}] under cfg[{}] gave different state-key sequences on two executions ({:?} vs {:?})",
+                    hist_str(&hist), job.cfg.label(), d1, d2
+                ));
+            }
+        }
+        if let Some(v) = v {
             if seen_keys.insert(v.key.clone()) || res.violations.len() < 4 {
                 if res.violations.len() < 200 {
                     res.violations.push(v);
@@ -223,6 +252,7 @@ pub fn make_jobs(
                 oracle: oracle.to_string(),
                 partitions: 2,
                 wall_cap_s,
+                tcp: false,
             });
             let mut k = split;
             let mut done = true;
